@@ -3,7 +3,6 @@ W16 = r'(ha|wa|w2|wb)'
 CLASSES = {
  'C16': [
   ('X01-literal-out-of-range', r'^crash:', "an integer literal that does not fit (or is malformed, e.g. 99999999999, 0x100000000, --5) panics in parse_int / the bank-number parser: str::parse(...).unwrap()", r'ParseIntError'),
-  ('X02-define-regex', r'^crash:', "a function-like #define with a malformed parameter list makes define_ex panic on Regex::new(...).unwrap()", r'cpp\.rs:10\d'),
   ('X04-prototype-as-value', r'^crash:special/proto/as-(value|index)$', "a function that is only declared by a prototype used as a value (`c = f;`) panics in get_variable(...).unwrap()"),
   ('X03-inline-recursion', r'^crash:special/inline-(recursion|mutual)$', "an inline function that calls itself leaves an unresolved label: check_branches reaches unreachable!()", r'unreachable'),
  ],
